@@ -68,32 +68,55 @@ Definition in_band (k : nl_case) (g : vgrid) (p q : vec) : bool :=
   let b (d2 : Z) := le_cut d2 (nl_hi k) (nl_d k) && negb (lt_cut d2 (nl_lo k) (nl_d k)) in
   b (norm2 d) || b (norm2 dw).
 
-(* per atom: every index in exactly one of the two lists must be a band pair *)
-Definition nl_row_ok (k : nl_case) (g : vgrid) (xyz : list vec) (i : nat) (model impl : list nat) : bool :=
-  forallb (fun j => if mem j impl then true else in_band k g (pos xyz i) (pos xyz j)) model &&
-  forallb (fun j => if mem j model then true else (Nat.ltb j i && in_band k g (pos xyz i) (pos xyz j))) impl.
+(* rows are compared as sorted lists of binary integers (unary nat comparisons would dominate the run) *)
+Fixpoint zinsert (x : Z) (l : list Z) : list Z :=
+  match l with [] => [x] | y :: r => if x <=? y then x :: l else y :: zinsert x r end.
+Definition zsort (l : list Z) : list Z := fold_right zinsert [] l.
+Fixpoint zlist_eqb (a b : list Z) : bool :=
+  match a, b with
+  | [], [] => true
+  | x :: a', y :: b' => (x =? y) && zlist_eqb a' b'
+  | _, _ => false
+  end.
+Fixpoint zmem (x : Z) (l : list Z) : bool :=
+  match l with [] => false | y :: r => if x =? y then true else zmem x r end.
 
-Fixpoint nl_rows (k : nl_case) (g : vgrid) (xyz : list vec) (i : nat) (model impl : list (list nat)) : bool :=
+(* per atom: model row = implementation row, or every index in exactly one of them is a band pair *)
+Definition nl_row_ok (k : nl_case) (g : vgrid) (xyz : list vec) (i : nat) (model : list nat) (impl : list Z) : bool :=
+  let mz := zsort (map Z.of_nat model) in
+  if zlist_eqb mz impl then true
+  else
+    forallb (fun j => if zmem j impl then true else in_band k g (pos xyz i) (pos xyz (Z.to_nat j))) mz &&
+    forallb (fun j => if zmem j mz then true
+                      else ((0 <=? j) && (j <? Z.of_nat i) && in_band k g (pos xyz i) (pos xyz (Z.to_nat j)))) impl.
+
+Fixpoint nl_rows (k : nl_case) (g : vgrid) (xyz : list vec) (i : nat) (model : list (list nat)) (impl : list (list Z)) : bool :=
   match model, impl with
   | [], [] => true
-  | m :: model', a :: impl' => nl_row_ok k g xyz i m a && nl_rows k g xyz (S i) model' impl'
+  | m :: model', a :: impl' => if nl_row_ok k g xyz i m a then nl_rows k g xyz (S i) model' impl' else false
   | _, _ => false
   end.
 
-(* variant false = as found (nlist_half), true = repaired (positions wrapped into the cell first);
-   impl = for every atom the reported neighbours with a smaller index *)
-Definition nl_check (fixed : bool) (k : nl_case) (impl : list (list nat)) : bool :=
-  let xyz := if fixed then
-               match nl_cell k with Some B => map (wrap_into_cell (reduce_box B)) (nl_xyz k) | None => nl_xyz k end
-             else nl_xyz k in
+Definition nl_check_on (k : nl_case) (xyz : list vec) (impl : list (list Z)) : bool :=
   let g := make_grid (nl_cell k) (nl_c k) xyz in
   nl_rows k g xyz 0 (nlist_half (nl_cell k) (nl_c k) xyz) impl.
 
-Fixpoint rows_eqb (a b : list (list nat)) : bool :=
+Fixpoint vecs_eqb (a b : list vec) : bool :=
   match a, b with
   | [], [] => true
-  | x :: a', y :: b' => forallb (fun j => mem j y) x && forallb (fun j => mem j x) y && rows_eqb a' b'
+  | p :: a', q :: b' => (vx p =? vx q) && (vy p =? vy q) && (vz p =? vz q) && vecs_eqb a' b'
   | _, _ => false
   end.
-Definition nl_exact (fixed : bool) (k : nl_case) (impl : list (list nat)) : bool :=
-  rows_eqb (if fixed then nlist_half_fix (nl_cell k) (nl_c k) (nl_xyz k) else nlist_half (nl_cell k) (nl_c k) (nl_xyz k)) impl.
+
+(* impl = for every atom the reported neighbours with a smaller index, ascending.
+   Result: 0 = agrees with both variants, 1 = only with the repaired one (positions wrapped into the cell
+   first), 2 = only with the as-found one, 3 = with neither.  When wrapping changes no position the two
+   variants are the same computation and it is done once. *)
+Definition nl_code (k : nl_case) (impl : list (list Z)) : Z :=
+  let cur := nl_check_on k (nl_xyz k) impl in
+  let wrapped := match nl_cell k with
+                 | Some B => map (wrap_into_cell (reduce_box B)) (nl_xyz k)
+                 | None => nl_xyz k
+                 end in
+  let fx := if vecs_eqb wrapped (nl_xyz k) then cur else nl_check_on k wrapped impl in
+  (if cur then 0 else 1) + (if fx then 0 else 2).
